@@ -25,6 +25,7 @@ EXPLANATION = (
     ' Round 6: (24) BOUND: every look-ahead read L[i + k] in vterm.py is covered by a length test i + m < len(L) with m >= k (earlier operand of the same `and`, or a dominating test): SGR 38;5 / 38;2 with the parameters cut short must not raise IndexError.'
     ' (25) ALIAS: the classes TermCanvas freezes with copy.copy() (save_cursor: AttrSpec, TermCharset) never edit one of their container attributes in place (fix 43a10ab: DECSC / DECRC restores the G0 / G1 designations).'
     ' Round 8: (26) ALIAS: saved and live cursor attributes never share an object (both directions copy); (27) SIB: each arm of scroll() pops at one margin of the region and inserts at the other.'
+    ' Round-8 triage: (11) now also covers carriage return (fix 90ead6e); (28) WRITER: pure cursor movements call no cell writer (fix 8ed1786); (29) ORDER: ESC resets the parser before opening a new sequence (fix abf2912); (30) PAIR: resize() shifts the cursor row with every line moved to / from the scrollback (fix a4455ef).'
 )
 NOT_DECIDED = (
     "Index-bounds safety of every self.term[y][x] access (IndexError is outside the exception model; only the clamp discipline is decided), width normalisation of rows returned "
